@@ -123,6 +123,12 @@ type Sched struct {
 	// DeferReplayed >= 0: the n-th work item replayed after a crash is a straggler: it is taken up only when
 	// nothing else can run (its partition's worker was slow to start or sits in a retry back-off).
 	DeferReplayed int
+	// StragglerHold: the straggler additionally waits until this many more external actions have been performed
+	// (a request that arrives while one partition's worker has still not looked at its replayed item)
+	StragglerHold int
+	// DeferInterrupted: the straggler is the very item whose reconcile the crash interrupted
+	DeferInterrupted bool
+	interrupted      StepCtx
 	// HoldExternals: a deferred in-flight task (DeferInflight) stays parked until this many more external
 	// actions have been performed and nothing else can run.
 	HoldExternals int
@@ -166,6 +172,7 @@ type Sched struct {
 	ParkedRetries  int
 	Conflicts      int
 	decisionsDrawn int
+	deferredSince  int // step at which the current straggler was held back (0 = none)
 	cur            *StepCtx
 }
 
@@ -261,6 +268,9 @@ func (s *Sched) crashNow(g *Gate) {
 	s.emu.Lock()
 	s.crashPending = true
 	s.CrashAt = -1
+	if s.cur != nil {
+		s.interrupted = *s.cur
+	}
 	s.emu.Unlock()
 	if g.task != nil {
 		g.task.poisoned = true
@@ -519,6 +529,18 @@ func (s *Sched) candidates() []cand {
 			normal = append(normal, c)
 		}
 	}
+	// a straggler is slow, not dead: it is taken up at the latest deferLimit steps after it was held back (the
+	// others may keep each other busy for as long as it stays away)
+	if s.deferredSince > 0 && s.Steps-s.deferredSince > deferLimit {
+		for _, c := range items {
+			c.it.deferred = false
+		}
+		for _, c := range tasks {
+			c.t.deferred = false
+		}
+		s.deferredSince, s.HoldExternals = 0, 0
+		normal, late = items, nil
+	}
 	var running, parked []cand
 	for _, c := range tasks {
 		if c.t.deferred {
@@ -533,7 +555,7 @@ func (s *Sched) candidates() []cand {
 		}
 		running, parked = parked, nil
 	}
-	if len(running)+len(parked)+len(normal) == 0 {
+	if len(running)+len(parked)+len(normal) == 0 && (s.HoldExternals <= 0 || len(s.Externals) == 0) {
 		for _, c := range late {
 			c.it.deferred = false
 		}
@@ -553,6 +575,7 @@ func (s *Sched) DeferInflight(ctlName string, hold int) bool {
 		for _, sl := range c.slots {
 			if sl.inflight != nil {
 				sl.inflight.deferred = true
+				s.deferredSince = max(1, s.Steps)
 				s.HoldExternals = hold
 				return true
 			}
@@ -770,6 +793,12 @@ func (s *Sched) finish(t *task) {
 		return
 	}
 	if t.err != nil {
+		// errs counts failures with NOTHING changing between them (a failure that repeats on the same state is not
+		// retried for ever by the harness); an attempt that failed after something had changed since the last
+		// failure - typically a version conflict of a pre-empted step - starts the count again
+		if now := s.Effects() + s.w.Topo.WriteCount(); it.errs > 0 && now != it.failedAt {
+			it.errs = 0
+		}
 		it.errs++
 		it.failedAt = s.Effects() + s.w.Topo.WriteCount()
 		s.seq++
@@ -877,13 +906,32 @@ func (s *Sched) restart() error {
 	if err := s.startWatchers(); err != nil {
 		return err
 	}
-	if s.ReverseReplay || s.DeferReplayed >= 0 {
+	if s.ReverseReplay || s.DeferReplayed >= 0 || s.DeferInterrupted {
 		if err := s.settle(); err != nil {
 			return err
+		}
+		if s.DeferInterrupted && s.Crashes == 1 && s.interrupted.Ctl != "" {
+			for _, c := range s.ctls {
+				if c.name != s.interrupted.Ctl {
+					continue
+				}
+				for _, sl := range c.slots {
+					for _, it := range sl.pending {
+						if s.idStr(it.id) == s.interrupted.ID && s.deferredSince == 0 {
+							it.deferred = true
+							s.deferredSince = max(1, s.Steps)
+							s.HoldExternals = s.StragglerHold
+							s.x.Logf("  (straggler after the crash: the interrupted %s %s)", c.name, s.interrupted.ID)
+						}
+					}
+				}
+			}
 		}
 		if s.DeferReplayed >= 0 && s.Crashes == 1 {
 			if all := s.allPending(); s.DeferReplayed < len(all) {
 				all[s.DeferReplayed].deferred = true
+				s.deferredSince = max(1, s.Steps)
+				s.HoldExternals = s.StragglerHold
 				s.x.Logf("  (straggler after the crash: %s)", s.idStr(all[s.DeferReplayed].id))
 			}
 		}
@@ -896,6 +944,8 @@ func (s *Sched) restart() error {
 	}
 	return nil
 }
+
+const deferLimit = 150
 
 // allPending returns every queued item in arrival order.
 func (s *Sched) allPending() []*item {
